@@ -209,20 +209,51 @@ Proof.
   destruct (find_name s (a :: n)); [discriminate|]. intros [= <- _]. simpl. auto.
 Qed.
 
-Lemma create_parents_links t ps : forall s,
-  let s1 := fold_left (fun s' p =>
-                 match find_name s' p with
-                 | Some _ => s'
-                 | None => match create_mailbox_row s' p t with
-                           | Some (s'', _) => s'' | None => s' end
-                 end) ps s in
-  links s1 = links s /\ next_msg s1 = next_msg s.
+Lemma create_or_same_links s n t :
+  links (create_or_same s n t) = links s /\ next_msg (create_or_same s n t) = next_msg s.
 Proof.
+  unfold create_or_same. destruct (create_mailbox_row s n t) as [[s' id]|] eqn:C; auto.
+  apply (create_row_links _ _ _ _ _ C).
+Qed.
+
+Lemma add_defaults_links s t :
+  links (add_defaults s t) = links s /\ next_msg (add_defaults s t) = next_msg s.
+Proof.
+  unfold add_defaults.
+  repeat match goal with |- context [create_or_same ?a ?b ?c] =>
+    let H := fresh in destruct (create_or_same_links a b c) as [H ?]; rewrite H; clear H;
+    match goal with E : next_msg (create_or_same a b c) = _ |- _ => rewrite E; clear E end end.
+  auto.
+Qed.
+
+Lemma create_parents_links s name t :
+  links (fst (create_parents s name t)) = links s /\
+  next_msg (fst (create_parents s name t)) = next_msg s.
+Proof.
+  unfold create_parents. destruct (contains_byte name SLASH); cbn [fst]; auto.
+  generalize (parent_paths name). intros ps. revert s.
   induction ps as [|p r IH]; simpl; intros s; auto.
-  destruct (find_name s p); [apply IH|].
-  destruct (create_mailbox_row s p t) as [[s2 id]|] eqn:C; [|apply IH].
-  destruct (create_row_links _ _ _ _ _ C) as [E1 E2].
-  destruct (IH s2) as [A B]. split; congruence.
+  assert (X : forall s', links s' = links s -> next_msg s' = next_msg s ->
+    links (fold_left (fun s'0 p0 => match p0 with
+            | [] => s'0
+            | _ :: _ => if equal_fold p0 INBOX then s'0 else
+               match find_name s'0 p0 with
+               | Some _ => s'0
+               | None => match create_mailbox_row s'0 p0 t with Some (s'', _) => s'' | None => s'0 end
+               end end) r s') = links s /\
+    next_msg (fold_left (fun s'0 p0 => match p0 with
+            | [] => s'0
+            | _ :: _ => if equal_fold p0 INBOX then s'0 else
+               match find_name s'0 p0 with
+               | Some _ => s'0
+               | None => match create_mailbox_row s'0 p0 t with Some (s'', _) => s'' | None => s'0 end
+               end end) r s') = next_msg s).
+  { intros s' E1 E2. destruct (IH s') as [A B]. split; congruence. }
+  destruct p as [|c p]; [apply X; auto|].
+  destruct (equal_fold (c :: p) INBOX); [apply X; auto|].
+  destruct (find_name s (c :: p)); [apply X; auto|].
+  destruct (create_mailbox_row s (c :: p) t) as [[s2 id]|] eqn:C; [|apply X; auto].
+  destruct (create_row_links _ _ _ _ _ C). apply X; auto.
 Qed.
 
 Lemma op_create_links s n t :
@@ -230,12 +261,12 @@ Lemma op_create_links s n t :
 Proof.
   unfold op_create. destruct (trim_suffix n [SLASH]) as [|c name] eqn:T; [cbn [fst]; auto|].
   destruct (str_eqb (to_upper (c :: name)) INBOX); [cbn [fst]; auto|].
+  destruct (is_role_ns (c :: name)); [cbn [fst]; auto|].
   destruct (find_name s (c :: name)); [cbn [fst]; auto|].
-  match goal with |- context [create_mailbox_row ?X (c :: name) t] => set (s1 := X) end.
-  assert (P : links s1 = links s /\ next_msg s1 = next_msg s).
-  { unfold s1. destruct (contains_byte (c :: name) SLASH); auto. apply create_parents_links. }
-  destruct (create_mailbox_row s1 (c :: name) t) as [[s2 id]|] eqn:C; cbn [fst]; auto.
-  destruct (create_row_links _ _ _ _ _ C). destruct P. split; congruence.
+  destruct (create_parents_links s (c :: name) t) as [P1 P2].
+  destruct (create_mailbox_row (fst (create_parents s (c :: name) t)) (c :: name) t) as [[s2 id]|] eqn:C;
+    cbn [fst]; auto.
+  destruct (create_row_links _ _ _ _ _ C). split; congruence.
 Qed.
 
 (** ---- every atomic operation ------------------------------------------------------------- *)
